@@ -32,6 +32,7 @@ type opRec struct {
 	want       *xmltree.Node
 	wireAtRet  int64 // bytes on the wire when the call returned
 	stanza     bool  // top-level is a stanza: completions apply
+	invalid    bool  // the arguments are invalid: the call must fail and write nothing
 	startGiven bool
 }
 
@@ -165,6 +166,11 @@ func (g *gen) stanzaTop(kind, typ, marker string, forceID string) *elem {
 	if r.Intn(4) == 0 {
 		e.Attrs = append(e.Attrs, xml.Attr{Name: xml.Name{Space: nsXML, Local: "lang"}, Value: "en"})
 	}
+	if r.Intn(12) == 0 {
+		// a qualified attribute whose local name is id / from / type is not the
+		// stanza's id, from or type
+		e.Attrs = append(e.Attrs, xml.Attr{Name: xml.Name{Space: nsAttr, Local: []string{"id", "from", "type"}[r.Intn(3)]}, Value: "qualified"})
+	}
 	e.Kids = genKids(r, g.streamNS, 1)
 	if e.Name.Space != "" && r.Intn(3) == 0 && !emptyUnderForeign(e, e.Name.Space) {
 		// explicit duplicate xmlns attribute, as produced by decoders.  Not
@@ -267,7 +273,7 @@ func (g *gen) next(actor, n int) (*opRec, func(ctx context.Context) error) {
 	marker := fmt.Sprintf("a%d-%d", actor, n)
 	rec := &opRec{Actor: actor, N: n, Marker: marker}
 	s := g.s
-	switch r.Intn(22) {
+	switch r.Intn(24) {
 	case 0, 1: // Send
 		rec.Entry = "Send"
 		var e *elem
@@ -371,6 +377,29 @@ func (g *gen) next(actor, n int) (*opRec, func(ctx context.Context) error) {
 		}
 		rec.want = t
 		return rec, func(ctx context.Context) error { return s.EncodeElement(ctx, inner, start.Copy()) }
+	case 22: // a call with an invalid argument: it must fail, write nothing, and leave the session usable
+		rec.Entry, rec.invalid = "Invalid", true
+		switch r.Intn(4) {
+		case 0:
+			rec.Form = "Send:not-a-start-element"
+			return rec, func(ctx context.Context) error {
+				return s.Send(ctx, reader([]xml.Token{xml.CharData("text " + marker)}))
+			}
+		case 1:
+			rec.Form = "Send:start-element-without-name"
+			return rec, func(ctx context.Context) error {
+				st := xml.StartElement{Attr: []xml.Attr{attr(markAtt, marker)}}
+				return s.Send(ctx, reader([]xml.Token{st, st.End()}))
+			}
+		case 2:
+			rec.Form = "SendElement:start-element-without-name"
+			return rec, func(ctx context.Context) error {
+				return s.SendElement(ctx, reader(nil), xml.StartElement{Attr: []xml.Attr{attr(markAtt, marker)}})
+			}
+		default:
+			rec.Form = "Encode:unsupported-value"
+			return rec, func(ctx context.Context) error { return s.Encode(ctx, struct{ C chan int }{}) }
+		}
 	case 8: // TokenWriter
 		rec.Entry, rec.Form = "TokenWriter", "tokens"
 		var e *elem
